@@ -111,19 +111,22 @@ func nilsKey(m nilMap) string {
 }
 
 type split[S any] struct {
-	nilS, nonNilS *S // continuation states; nil pointer = unreachable
-	base          *S // state right after the binding statement; the split applies only while the state is unchanged
+	nilS, nonNilS *S            // continuation states; nil pointer = unreachable
+	base          *S            // state right after the binding statement; the split applies only while the state is unchanged
+	boolean       bool          // the callee returns a bool: nilS is the "true" continuation, nonNilS the "false" one
+	call          *ast.CallExpr // the call, for conditions that test it directly (if !helper() {...})
 }
 
 type fstate[S any] struct {
 	s      S
 	nils   nilMap
 	splits map[types.Object]*split[S]
-	ok     bool // reachable
+	cond   *split[S] // split of a boolean helper called inside the condition being processed
+	ok     bool      // reachable
 }
 
 func (e *Analysis[S]) copyState(st fstate[S]) fstate[S] {
-	out := fstate[S]{s: e.Copy(st.s), nils: st.nils.copy(), ok: st.ok}
+	out := fstate[S]{s: e.Copy(st.s), nils: st.nils.copy(), ok: st.ok, cond: st.cond}
 	if len(st.splits) > 0 {
 		out.splits = map[types.Object]*split[S]{}
 		for k, v := range st.splits {
@@ -346,6 +349,34 @@ func (e *Analysis[S]) refineNil(st *fstate[S], cond ast.Expr, branch bool) {
 		}
 		return
 	}
+	// A predicate helper analysed in place, tested directly or through the variable it was
+	// assigned to: select the continuation of the exits that returned this truth value.
+	pickBool := func(sp *split[S]) {
+		if sp.base == nil || !e.Equal(st.s, *sp.base) {
+			return
+		}
+		pick := sp.nonNilS
+		if branch {
+			pick = sp.nilS
+		}
+		if pick == nil {
+			st.ok = false
+			return
+		}
+		st.s = e.Copy(*pick)
+	}
+	if call, ok := cond.(*ast.CallExpr); ok && st.cond != nil && st.cond.boolean && st.cond.call == call {
+		pickBool(st.cond)
+		return
+	}
+	if id, ok := cond.(*ast.Ident); ok {
+		if obj := objOf(e.Info, id); obj != nil {
+			if sp := st.splits[obj]; sp != nil && sp.boolean {
+				pickBool(sp)
+				return
+			}
+		}
+	}
 	// errors.Is(err, X) / errors.As(err, &x) being true implies err != nil.
 	if call, ok := cond.(*ast.CallExpr); ok && branch && len(call.Args) == 2 {
 		if k := calleeKey(e.Info, call); k == "errors.Is" || k == "errors.As" {
@@ -363,7 +394,7 @@ func (e *Analysis[S]) refineNil(st *fstate[S], cond ast.Expr, branch bool) {
 			if obj := objOf(e.Info, x); obj != nil {
 				isNonNil := (be.Op == token.NEQ) == branch
 				// Select the continuation of a wrapper call bound to this variable.
-				if sp := st.splits[obj]; sp != nil && sp.base != nil && e.Equal(st.s, *sp.base) {
+				if sp := st.splits[obj]; sp != nil && !sp.boolean && sp.base != nil && e.Equal(st.s, *sp.base) {
 					var pick *S
 					if isNonNil {
 						pick = sp.nonNilS
@@ -471,6 +502,10 @@ func (e *Analysis[S]) runBlock(fc *FlowCtx[S], b *cfg.Block, st fstate[S], ftype
 		}
 		// 3. Engine bookkeeping: kills, bindings, nil-ness of fresh definitions.
 		e.bookkeep(&st, n, boundCall, boundSplit)
+		st.cond = nil
+		if _, isExpr := n.(ast.Expr); isExpr && boundSplit != nil && boundSplit.boolean {
+			st.cond = boundSplit // the condition calls a predicate helper: see refineNil
+		}
 		if ret, ok := n.(*ast.ReturnStmt); ok {
 			nret++
 			cls := e.classifyReturn(ret, ftype, st)
@@ -672,8 +707,8 @@ func (e *Analysis[S]) inlineFunc(fc *FlowCtx[S], st *fstate[S], call *ast.CallEx
 	*st = anyOut
 	st.splits = keep
 	if res := decl.Type.Results; res != nil && len(res.List) > 0 {
-		if t := e.Info.TypeOf(res.List[len(res.List)-1].Type); t != nil && t.String() == "error" {
-			sp := &split[S]{}
+		if t := e.Info.TypeOf(res.List[len(res.List)-1].Type); t != nil && (t.String() == "error" || t.String() == "bool") {
+			sp := &split[S]{boolean: t.String() == "bool", call: call}
 			if nilOut.ok {
 				s := nilOut.s
 				sp.nilS = &s
@@ -802,6 +837,20 @@ func (e *Analysis[S]) classifyReturn(ret *ast.ReturnStmt, ftype *ast.FuncType, s
 	}
 	if isNilIdent(e.Info, last) {
 		return isNil
+	}
+	// A predicate helper: "return true" is classified like a nil error (the success
+	// continuation), "return false" like a non-nil one, so that "if !helper() { return }"
+	// in the caller selects the matching exits.
+	if t := e.Info.TypeOf(last); t != nil {
+		if b, ok := t.Underlying().(*types.Basic); ok && b.Info()&types.IsBoolean != 0 {
+			if tv, ok := e.Info.Types[last]; ok && tv.Value != nil {
+				if tv.Value.String() == "true" {
+					return isNil
+				}
+				return nonNil
+			}
+			return nilUnknown
+		}
 	}
 	if isNonNilExpr(e.Info, last) {
 		return nonNil
